@@ -38,7 +38,7 @@ BUDGET = {"quick": 1500, "thorough": 60000}
 KINDS = {"crash", "order_dependent", "wrong_selection", "missed_ambiguity", "false_ambiguity", "false_nomatch",
          "false_match", "rank_not_min", "tied_set", "unsound_match", "output_not_substitution", "bind_accepts_rebind",
          "bind_rejects_consistent", "exception_escaped", "malformed_output", "false_reject", "false_accept"}
-PROP_KINDS = {"C19": KINDS}
+PROP_KINDS = {"C19": set(KINDS) | {"generic_scalar_beats_structured"}}  # S1 is a recorded known finding (known_findings.json C19-S1)
 
 ATOMS = [0, 1, 2, 3, 4]
 HASHABLE_ATOMS = [0, 1, 3, 4]
